@@ -26,10 +26,6 @@ EXPLANATION = (
 BASES = ('Distribution', 'DistContinuous', 'DistDiscrete')
 
 EXPR_AXIOMS = {
-    ('DistGamma', 'draw', '-math.log((b - p) / self._shape)'): (
-        Itv(1.0, I.INF, True, True),
-        'this branch is entered with p > 1 and b = (e + shape)/e, so b - p < b - 1 = shape/e, hence (b - p)/shape < 1/e and -log(..) > 1; '
-        '(b - p) > 0 is proved by the analyser itself (product lemma)'),
     ('DistNormalTrunc', 'draw', 'self._cum_prob_lo + self._cum_prob_diff * self._stream.next_float()'): (
         Itv(0.0, 1.0, False, False),
         'cum_prob_diff = cdf(hi) - cum_prob_lo with 0 <= cum_prob_lo <= cdf(hi) <= 1, so cum_prob_lo + cum_prob_diff*u is a convex combination of two '
